@@ -141,3 +141,101 @@ def r_C15eval(root):
     k, left, ms, ran = scenario(True, with_repo=False)
     rep("no global repository: the error just propagates", k == "raise ValueError", "without a global repository a failing model processor gives %s" % k)
     return inst, out
+
+def r_C17importuri(root):
+    """C17.n  the ImportURI provider decided by evaluation (providers.py methods interpreted; the repositories are the
+    interpreted classes of scoping/__init__.py; the wrapped scope provider and the repository's load functions are
+    recording stand-ins):
+      lookup   the referencing object's own model is asked first, then the models imported by it (local_models, in import
+               order), then the meta-model's builtin models; the first answer that is not None is returned at once
+      load_models   a model without repository gets a GlobalModelRepository of its own - sharing the meta-model's
+               all_models when the meta-model has a global repository, a fresh one otherwise; an existing one is kept;
+               then the imports are loaded with the encoding given
+      imports  every object with an importURI is loaded once (search path or file pattern branch alike) with the encoding
+               of the load, the importing model's parameters and add_to_local_models = False exactly when importAs is on and
+               the import is named; the loaded models are recorded on the importing object"""
+    P = "textx/scoping/providers.py"
+    out = []; inst = 0
+    t = load(root, P); ts = load(root, S)
+    cds = {c.name: c for c in ts.body if isinstance(c, ast.ClassDef)}
+    pcl = find(t, "ImportURI")
+    fns = {f.name: f for f in pcl.body if isinstance(f, ast.FunctionDef)}
+    fns.update({f.name: f for f in t.body if isinstance(f, ast.FunctionDef)})
+    XREF = HS({".kind": "cls", ".__name__": "ObjCrossRef"})
+    def rep(what, ok, msg, fn_="ImportURI", props_=("C17",), witness=""):
+        nonlocal inst
+        inst += 1
+        for pr in props_:
+            ob(pr, "C17.n", P, fn_, what, ok)
+            if not ok: out.append(Finding(pr, "C17.n", P, fn_, what, msg, witness=witness))
+    env0 = {"__classdefs__": cds, "__functions__": {f.name: f for f in ts.body if isinstance(f, ast.FunctionDef)}, "abspath": pyeval.PyFn(lambda p: p)}
+    def base_env():
+        return {"__classdefs__": cds, "__functions__": fns, "__module__": t, "ObjCrossRef": XREF, "abspath": pyeval.PyFn(lambda p: p if p.startswith("/") else "/abs/" + p), "dirname": pyeval.PyFn(lambda p: p.rsplit("/", 1)[0]), "join": pyeval.PyFn(lambda *a: "/".join(a)),
+                "__keep__": ("abspath", "dirname", "join", "ObjCrossRef")}
+    # ---------------------------------------------------------------- lookup order
+    call = fns["__call__"]; cps = [a.arg for a in call.args.args]
+    for what, answers, want in (("the own model answers", {"own": "own-hit", "imp1": "imp1-hit", "b1": "b1-hit"}, "own-hit"), ("only the second imported model and a builtin model answer", {"imp2": "imp2-hit", "b1": "b1-hit"}, "imp2-hit"),
+                               ("both imported models answer", {"imp1": "imp1-hit", "imp2": "imp2-hit"}, "imp1-hit"), ("only builtin models answer", {"b1": "b1-hit", "b2": "b2-hit"}, "b1-hit"), ("nobody answers", {}, None)):
+        repo = pyeval.instantiate("GlobalModelRepository", [], {}, env0)
+        mm = HS({".kind": "metamodel", ".builtin_models": [HS({".kind": "model", ".tag": "b1"}), HS({".kind": "model", ".tag": "b2"})]})
+        model = HS({".kind": "model", ".tag": "own", "._tx_model_repository": repo, "._tx_metamodel": mm})
+        for tag, fname in (("imp1", "/m/1"), ("imp2", "/m/2")): repo[".local_models"][".filename_to_model"][fname] = HS({".kind": "model", ".tag": tag})
+        obj = HS({".kind": "obj", ".parent": model}); asked = []
+        def inner(scope, attr, ref):
+            tag = "own" if scope is obj else scope.get(".tag"); asked.append(tag); return answers.get(tag)
+        env = base_env(); env.update({cps[0]: HS({".kind": "provider", ".scope_provider": pyeval.PyFn(inner)}), cps[1]: obj, cps[2]: HS({".name": "a"}), cps[3]: HS({".__class__": XREF, ".obj_name": "n", ".cls": None}),
+                                      "get_model": pyeval.PyFn(lambda o: model)})
+        try: k, v = "ret", pyeval.run_block(call.body, env)
+        except pyeval.Raised as r_: k, v = "raise", r_.cls
+        except pyeval.Unsupported as u_: raise AnalysisError("ImportURI.__call__: outside the evaluated subset: %s" % u_)
+        order = ["own", "imp1", "imp2", "b1", "b2"]; exp_asked = order[: order.index(next((x for x in order if x in answers), "b2")) + 1]
+        rep("lookup: %s" % what, k == "ret" and v == want and asked == exp_asked, "when %s the provider %s after asking %s; documented: %r after asking %s (own model, then imported models in import order, then builtin models; the first answer wins)" % (what, "returns %r" % (v,) if k == "ret" else "raises %s" % v, asked, want, exp_asked), "ImportURI.__call__")
+    # ---------------------------------------------------------------- load_models
+    lm = fns["load_models"]; lps = [a.arg for a in lm.args.args]
+    for what in ("meta-model with a global repository", "meta-model with a global repository, model loaded from a string", "meta-model without", "model that already has a repository"):
+        glob_repo = pyeval.instantiate("GlobalModelRepository", [], {}, env0)
+        mm = HS({".kind": "metamodel"})
+        if what.startswith("meta-model with a"): mm["._tx_model_repository"] = glob_repo
+        model = HS({".kind": "model", "._tx_metamodel": mm, "._tx_filename": None if "string" in what else "/m/main"})
+        own = pyeval.instantiate("GlobalModelRepository", [], {}, env0)
+        if what.startswith("model that"): model["._tx_model_repository"] = own
+        seen = []
+        self_ = HS({".kind": "provider", "._load_referenced_models": pyeval.PyFn(lambda m, encoding=None, **k: seen.append((m, encoding)))})
+        env = base_env(); env.update({lps[0]: self_, lps[1]: model, "get_metamodel": pyeval.PyFn(lambda m: mm), "encoding": "latin-1"})
+        env["__functions__"] = {k_: v_ for k_, v_ in fns.items() if k_ != "_load_referenced_models"}
+        for p_ in lps[2:]: env[p_] = "latin-1"
+        try: pyeval.run_block(lm.body, env); err = None
+        except pyeval.Raised as r_: err = "raises " + r_.cls
+        except pyeval.Unsupported as u_: raise AnalysisError("ImportURI.load_models: outside the evaluated subset: %s" % u_)
+        r_ = model.get("._tx_model_repository")
+        if what.startswith("model that"): ok = err is None and r_ is own
+        elif what.startswith("meta-model with a"): ok = err is None and isinstance(r_, pyeval.Inst) and r_ is not glob_repo and r_.get(".all_models") is glob_repo.get(".all_models") and r_.get(".local_models") is not glob_repo.get(".local_models")
+        else: ok = err is None and isinstance(r_, pyeval.Inst) and isinstance(r_.get(".all_models"), pyeval.Inst) and r_.get(".all_models") is not glob_repo.get(".all_models")
+        ok = ok and seen == [(model, "latin-1")]
+        rep("load_models: %s" % what, ok, "load_models on a %s: %s; the imports are then loaded %s; documented: %s, then the imports are loaded once with the encoding of the load" % (what, err or ("the model's repository is " + ("kept" if r_ is own else "the meta-model's repository object itself" if r_ is glob_repo else "a new one" if isinstance(r_, pyeval.Inst) else "missing")), seen and [e_ for _m, e_ in seen], "the existing repository is kept" if what.startswith("model that") else ("a repository of its own that shares the meta-model's all_models (own local_models)" if what.startswith("meta-model with a") else "a fresh repository")), "ImportURI.load_models", props_=("C17", "C16"))
+    # ---------------------------------------------------------------- imports
+    lr = fns["_load_referenced_models"]; rps = [a.arg for a in lr.args.args]
+    for search_path in (None, ["/lib"]):
+        for import_as in (False, True):
+            for named in (False, True):
+                log = []
+                def rec(kind):
+                    def f(*a, **k): log.append((kind, a, k)); return HS({".kind": "model", ".tag": "loaded"}) if kind == "search" else [HS({".kind": "model", ".tag": "loaded"})]
+                    return pyeval.PyFn(f)
+                params = HS({".kind": "params"})
+                model = HS({".kind": "model", "._tx_filename": "/m/main.mdl", "._tx_model_params": params, "._tx_model_repository": HS({".load_model_using_search_path": rec("search"), ".load_models_using_filepattern": rec("pattern")})})
+                imp = HS({".kind": "obj", ".importURI": "other.mdl", ".parent": model})
+                if named: imp[".name"] = "alias"
+                self_ = HS({".kind": "provider", ".search_path": search_path, ".importAs": import_as, ".importURI_converter": pyeval.PyFn(lambda x: x), ".importURI_to_scope_name": None, ".glob_args": {}})
+                env = base_env(); env.update({rps[0]: self_, rps[1]: model, "get_children": pyeval.PyFn(lambda sel, root_obj, *a, **k: [o for o in [imp] if sel(o)])})
+                for p_ in rps[2:]: env[p_] = "latin-1"
+                try: pyeval.run_block(lr.body, env); err = None
+                except pyeval.Raised as r_: err = "raises " + r_.cls
+                except pyeval.Unsupported as u_: raise AnalysisError("ImportURI._load_referenced_models: outside the evaluated subset: %s" % u_)
+                want_local = not (import_as and named)
+                what = "%s, importAs %s, %s import" % ("search path" if search_path else "file pattern", "on" if import_as else "off", "named" if named else "unnamed")
+                ok = err is None and len(log) == 1 and log[0][0] == ("search" if search_path else "pattern")
+                kw = log[0][2] if log else {}
+                ok = ok and kw.get("encoding") == "latin-1" and kw.get("model_params") is params and kw.get("add_to_local_models") is want_local and kw.get("model") is model and isinstance(imp.get("._tx_loaded_models"), list) and len(imp["._tx_loaded_models"]) == 1
+                rep("imports: %s" % what, ok, "importing 'other.mdl' (%s): %s with encoding=%r, the model's parameters %s, add_to_local_models=%r; documented: one load through the %s function with encoding 'latin-1', the importing model's parameters and add_to_local_models=%s, the result recorded on the importing object" % (what, err or "%d load(s) through %s" % (len(log), [x[0] for x in log]), kw.get("encoding"), "passed" if kw.get("model_params") is params else "NOT passed", kw.get("add_to_local_models"), "search-path" if search_path else "file-pattern", want_local), "ImportURI._load_referenced_models", props_=("C17", "C27", "C28"), witness="import 'other' as alias with importAs and a search path")
+    return inst, out
